@@ -461,6 +461,13 @@ func (t *trace) request(rs *reqSpec) error {
 		opts = nil
 		site = "SendOutputs"
 	}
+	// a change scope of its own (the selection scope still decides the inputs)
+	chgScope, chgCoin := 0, 0
+	if ks, ok := keyScope(rs.ChgScope, rs.ChgCoin); ok && (rs.API == "create" || rs.API == "fundpsbt") {
+		opts = append(opts, wallet.WithCustomChangeScope(&ks))
+		chgScope, chgCoin = rs.ChgScope, rs.ChgCoin
+		site += "(WithCustomChangeScope)"
+	}
 	var allowOps []wire.OutPoint
 	hasAllow := rs.HasAllow && rs.API != "send" && rs.API != "sendwith"
 	if hasAllow {
@@ -476,7 +483,8 @@ func (t *trace) request(rs *reqSpec) error {
 	}
 
 	dry := rs.Dry && rs.API == "create"
-	ro := reqObs{API: rs.API, Site: site, Acct: rs.Acct, Scope: rv.scope, Coin: rv.coin, MinConf: rs.MinConf, Rate: rs.Rate,
+	ro := reqObs{API: rs.API, Site: site, Acct: rs.Acct, Scope: rv.scope, Coin: rv.coin, ChgScope: chgScope, ChgCoin: chgCoin,
+		MinConf: rs.MinConf, Rate: rs.Rate,
 		Strat: rs.Strat, Explicit: t.refs(sel), Allow: t.refs(allowOps), HasAllow: hasAllow,
 		Dry: dry, InModel: true, Inputs: []opRef{}, Locked: []opRef{}, Cands: []candObs{}}
 	if ro.Strat == "" {
@@ -640,6 +648,9 @@ func (t *trace) request(rs *reqSpec) error {
 	t.tags["api:"+site] = true
 	t.tags["outcome:"+ro.Outcome] = true
 	t.tagAccount(rs, rv, ro.Outcome)
+	if chgScope != 0 && (chgScope != rv.scope || chgCoin != rv.coin) {
+		t.tags["change_scope_differs:"+ro.Outcome] = true
+	}
 	if created {
 		t.tags[fmt.Sprintf("ok_inputs:%d", min(len(ro.Inputs), 4))] = true
 		t.tags[fmt.Sprintf("ok_minconf:%d", rs.MinConf)] = true
